@@ -43,6 +43,7 @@ CONSTANTS StackIds,  \* which stacking orders (indices into AllStacks)
           NViews,    \* views when the stack has a Versioned layer
           PokeTTLs,  \* TTLs of foreign (undecodable) backend writes; {} = none
           MaxOps,    \* CONSTRAINT Bounded: at most this many operations per behaviour
+          Faults,    \* TRUE = every operation may find the backend failing (environment choice per operation)
           Full,      \* TRUE = also the operation variants that the model cannot tell apart (see Next)
           DetOnly    \* TRUE = multi-key steps whose resulting state depends on Go map order are disabled
                      \* (behaviour generation for deterministic replay; FALSE in the configs that decide C19)
@@ -79,6 +80,9 @@ VARIABLES conf,     \* [stack, cap, dttl]
           ownLeft,  \* seconds left of that store's own TTL
           retLeft,  \* seconds left of the latest default retention (back-fill into an LRU layer) of that store
           foreign,  \* -1, or seconds left of a foreign write to the backend entry since the latest store/delete
+          limbo,    \* limbo[<<w,k>>][v] = -1, or seconds left of the TTL of a write of v whose backend call failed
+                    \* (Set returned an error / SetAsync, SetMultiAsync lost it silently) since the latest
+                    \* successful store or delete: such a value may or may not be visible
           \* observation (not part of the VIEW)
           op,       \* the operation just performed, with its reply and the backend content after it
           hist,     \* all operations so far
@@ -86,9 +90,9 @@ VARIABLES conf,     \* [stack, cap, dttl]
                     \* (a function of lru and bk, kept in a variable so that each step computes it once)
 
 mech   == <<lru, bk>>
-ghosts == <<last, ownLeft, retLeft, foreign>>
-vars   == <<conf, lru, bk, last, ownLeft, retLeft, foreign, op, hist, pk>>
-View   == <<conf, lru, bk, last, ownLeft, retLeft, foreign>>
+ghosts == <<last, ownLeft, retLeft, foreign, limbo>>
+vars   == <<conf, lru, bk, last, ownLeft, retLeft, foreign, limbo, op, hist, pk>>
+View   == <<conf, lru, bk, last, ownLeft, retLeft, foreign, limbo>>
 
 Kinds     == AllStacks[conf.stack]
 NL        == Len(Kinds)
@@ -142,22 +146,30 @@ LruLookup(seq, keys, found, miss) ==
             ELSE LruLookup(LruRemove(seq, k), Tail(keys), found, Append(miss, k))
 
 ----------------------------------------------------------------------------
-(* The methods, layer i = 1..NL, backend = NL+1.  st = [lru |-> ..., bk |-> ...]. *)
+(* The methods, layer i = 1..NL, backend = NL+1.  st = [lru |-> ..., bk |-> ..., fail |-> ...];
+   st.fail = the backend call of this operation fails (returns an error and does nothing).
+   A TTL <= 0 stores an entry that is already expired: the mock then no longer finds the key (and Add may
+   overwrite it), an LRU layer keeps the expired entry in a slot. *)
+Pos(ttl) == Max(0, ttl)
+BkPut(b, key, val, ttl) == IF ttl > 0 THEN (key :> [val |-> val, left |-> ttl]) @@ b
+                           ELSE Restrict(b, DOMAIN b \ {key})
 
 RECURSIVE SetAt(_, _, _, _, _, _)
 SetAt(i, st, w, key, val, ttl) ==               \* Set / SetAsync
-  IF i > NL THEN [st EXCEPT !.bk = (key :> [val |-> val, left |-> ttl]) @@ @]          \* mock.go Set
+  IF i > NL THEN IF st.fail THEN st ELSE [st EXCEPT !.bk = BkPut(@, key, val, ttl)]    \* mock.go Set
   ELSE CASE Kinds[i] = "lru" ->    \* write through, then local insert with now+ttl (whatever the result below)
               LET below == SetAt(i + 1, st, w, key, val, ttl) IN
-              [below EXCEPT !.lru[<<i, Inst(i, w)>>] = LruAdd(@, key, val, ttl, conf.cap)]
+              [below EXCEPT !.lru[<<i, Inst(i, w)>>] = LruAdd(@, key, val, Pos(ttl), conf.cap)]
          [] Kinds[i] = "ver"    -> SetAt(i + 1, st, w, AddVer(w, key), val, ttl)
          [] Kinds[i] = "snappy" -> SetAt(i + 1, st, w, key, Encode(val), ttl)
 
 RECURSIVE MultiAt(_, _, _, _, _)
 MultiAt(i, st, w, data, ttl) ==                 \* SetMultiAsync; a set of states (map iteration order)
-  IF i > NL THEN {[st EXCEPT !.bk = [k \in DOMAIN data |-> [val |-> data[k], left |-> ttl]] @@ @]}
+  IF i > NL THEN {IF st.fail THEN st
+                  ELSE IF ttl > 0 THEN [st EXCEPT !.bk = [k \in DOMAIN data |-> [val |-> data[k], left |-> ttl]] @@ @]
+                  ELSE [st EXCEPT !.bk = Restrict(@, DOMAIN @ \ DOMAIN data)]}
   ELSE CASE Kinds[i] = "lru" ->
-              UNION {{[below EXCEPT !.lru[<<i, Inst(i, w)>>] = LruAddAll(@, order, data, ttl, conf.cap)]
+              UNION {{[below EXCEPT !.lru[<<i, Inst(i, w)>>] = LruAddAll(@, order, data, Pos(ttl), conf.cap)]
                        : order \in Orders(DOMAIN data)}
                      : below \in MultiAt(i + 1, st, w, data, ttl)}
          [] Kinds[i] = "ver" ->
@@ -167,19 +179,19 @@ MultiAt(i, st, w, data, ttl) ==                 \* SetMultiAsync; a set of state
 
 RECURSIVE AddAt(_, _, _, _, _, _)
 AddAt(i, st, w, key, val, ttl) ==               \* Add; [st, stored]
-  IF i > NL THEN IF key \in DOMAIN st.bk      \* mock.go: refuses while an unexpired entry exists
+  IF i > NL THEN IF st.fail \/ key \in DOMAIN st.bk      \* mock.go: refuses while an unexpired entry exists
                  THEN [st |-> st, stored |-> FALSE]
-                 ELSE [st |-> [st EXCEPT !.bk = (key :> [val |-> val, left |-> ttl]) @@ @], stored |-> TRUE]
+                 ELSE [st |-> [st EXCEPT !.bk = BkPut(@, key, val, ttl)], stored |-> TRUE]
   ELSE CASE Kinds[i] = "lru" ->    \* local insert only if the layer below stored it
               LET r == AddAt(i + 1, st, w, key, val, ttl) IN
-              IF r.stored THEN [r EXCEPT !.st.lru[<<i, Inst(i, w)>>] = LruAdd(@, key, val, ttl, conf.cap)]
+              IF r.stored THEN [r EXCEPT !.st.lru[<<i, Inst(i, w)>>] = LruAdd(@, key, val, Pos(ttl), conf.cap)]
               ELSE r
          [] Kinds[i] = "ver"    -> AddAt(i + 1, st, w, AddVer(w, key), val, ttl)
          [] Kinds[i] = "snappy" -> AddAt(i + 1, st, w, key, Encode(val), ttl)
 
 RECURSIVE DelAt(_, _, _, _)
 DelAt(i, st, w, key) ==                         \* Delete
-  IF i > NL THEN [st EXCEPT !.bk = Restrict(@, DOMAIN @ \ {key})]
+  IF i > NL THEN IF st.fail THEN st ELSE [st EXCEPT !.bk = Restrict(@, DOMAIN @ \ {key})]
   ELSE CASE Kinds[i] = "lru" ->    \* local removal, then below
               DelAt(i + 1, [st EXCEPT !.lru[<<i, Inst(i, w)>>] = LruRemove(@, key)], w, key)
          [] Kinds[i] = "ver"    -> DelAt(i + 1, st, w, AddVer(w, key))
@@ -189,8 +201,8 @@ DelAt(i, st, w, key) ==                         \* Delete
 RECURSIVE GetAt(_, _, _, _)
 GetAt(i, st, w, keys) ==
   IF i > NL THEN
-    LET hit == Range(keys) \cap DOMAIN st.bk IN           \* mock.go: found iff now.Before(ExpiresAt)
-    {[st |-> st, found |-> [k \in hit |-> st.bk[k].val], err |-> FALSE, bf |-> {}]}
+    LET hit == IF st.fail THEN {} ELSE Range(keys) \cap DOMAIN st.bk IN   \* mock.go: found iff now.Before(ExpiresAt)
+    {[st |-> st, found |-> [k \in hit |-> st.bk[k].val], err |-> st.fail, bf |-> {}]}
   ELSE CASE Kinds[i] = "lru" ->
               LET s    == <<i, Inst(i, w)>>
                   look == LruLookup(st.lru[s], keys, <<>>, <<>>)
@@ -213,7 +225,10 @@ GetAt(i, st, w, keys) ==
                          !.err   = o.err \/ good # DOMAIN o.found]
                 : o \in GetAt(i + 1, st, w, keys)}
 
-Cur == [lru |-> lru, bk |-> bk]
+Cur == [lru |-> lru, bk |-> bk, fail |-> FALSE]
+CurF(f) == [lru |-> lru, bk |-> bk, fail |-> f]
+(* what the wrapper layers alone hold (the backend unreachable) *)
+LocalOnly(st) == [st EXCEPT !.bk = <<>>]
 
 (* what GetMulti(<<k>>) through view w would return in state st (the reply does not depend on map order) *)
 Peek(st, w, k) ==
@@ -227,15 +242,15 @@ EncDepth(i) == Cardinality({j \in 1..(i - 1) : Kinds[j] = "snappy"})
 BkView(b) == {[ver |-> x[1], k |-> x[2], v |-> b[x].val.v, enc |-> b[x].val.enc, left |-> b[x].left] : x \in DOMAIN b}
 
 NoRep == [found |-> <<>>, err |-> FALSE, stored |-> TRUE, live |-> FALSE]
-Op(name, w, keys, vals, ttl, rep, nd, b) ==
-  [name |-> name, w |-> w, keys |-> keys, vals |-> vals, ttl |-> ttl, rep |-> rep, nd |-> nd, bk |-> BkView(b)]
+Op(name, w, keys, vals, ttl, f, rep, nd, b) ==
+  [name |-> name, w |-> w, keys |-> keys, vals |-> vals, ttl |-> ttl, fail |-> f, rep |-> rep, nd |-> nd, bk |-> BkView(b)]
 
 PeekMap(st) == [x \in (1..NViews) \X Keys |-> IF x[1] \in Views THEN Peek(st, x[1], x[2]) ELSE None]
 
 Record(o) == /\ op' = o            \* last conjunct of every action: lru' and bk' are determined
              /\ hist' = Append(hist, o)
              /\ conf' = conf
-             /\ pk' = TLCEval(PeekMap([lru |-> lru', bk |-> bk']))   \* TLCEval: pk is outside the VIEW and would stay lazy
+             /\ pk' = TLCEval(PeekMap([lru |-> lru', bk |-> bk', fail |-> FALSE]))   \* TLCEval: pk is outside the VIEW and would stay lazy
 
 Stored(w, ks, vals, ttl) ==      \* ghost update of a successful store of ks[j] -> vals[j]
   /\ last'    = [x \in DOMAIN last |-> IF x[1] = w /\ \E j \in 1..Len(ks) : ks[j] = x[2]
@@ -243,50 +258,62 @@ Stored(w, ks, vals, ttl) ==      \* ghost update of a successful store of ks[j] 
   /\ ownLeft' = [x \in DOMAIN ownLeft |-> IF x[1] = w /\ x[2] \in Range(ks) THEN ttl ELSE ownLeft[x]]
   /\ retLeft' = [x \in DOMAIN retLeft |-> IF x[1] = w /\ x[2] \in Range(ks) THEN 0 ELSE retLeft[x]]
   /\ foreign' = [x \in DOMAIN foreign |-> IF x[1] = w /\ x[2] \in Range(ks) THEN -1 ELSE foreign[x]]
+  /\ limbo'   = [x \in DOMAIN limbo |-> IF x[1] = w /\ x[2] \in Range(ks) THEN [v \in Values |-> -1] ELSE limbo[x]]
+
+Lost(w, ks, vals, ttl) ==        \* ghost update of a store whose backend call failed
+  /\ limbo' = [x \in DOMAIN limbo |->
+                 IF x[1] = w /\ x[2] \in Range(ks)
+                 THEN LET v == vals[CHOOSE j \in 1..Len(ks) : ks[j] = x[2]] IN
+                      [limbo[x] EXCEPT ![v] = Max(@, Pos(ttl))]
+                 ELSE limbo[x]]
+  /\ UNCHANGED <<last, ownLeft, retLeft, foreign>>
 
 Live(w, k) == IF foreign[<<w, k>>] >= 0 THEN foreign[<<w, k>>] > 0
               ELSE last[<<w, k>>] # None /\ ownLeft[<<w, k>>] > 0
 
-Set(name, w, k, v, ttl) ==
-  LET st == SetAt(1, Cur, w, CK(k), CV(v), ttl) IN
+Set(name, w, k, v, ttl, f) ==       \* Set returns the backend's error, SetAsync has none to return
+  LET st == SetAt(1, CurF(f), w, CK(k), CV(v), ttl) IN
   /\ lru' = st.lru /\ bk' = st.bk
-  /\ Stored(w, <<k>>, <<v>>, ttl)
-  /\ Record(Op(name, w, <<k>>, <<v>>, ttl, NoRep, FALSE, st.bk))
+  /\ IF f THEN Lost(w, <<k>>, <<v>>, ttl) ELSE Stored(w, <<k>>, <<v>>, Pos(ttl))
+  /\ Record(Op(name, w, <<k>>, <<v>>, ttl, f, [NoRep EXCEPT !.err = f /\ name = "set"], FALSE, st.bk))
 
-SetMulti(w, ks, vals, ttl) ==       \* ks: sequence of distinct keys (the map's keys), vals aligned
+SetMulti(w, ks, vals, ttl, f) ==       \* ks: sequence of distinct keys (the map's keys), vals aligned
   LET data == [x \in {CK(ks[j]) : j \in 1..Len(ks)} |-> CV(vals[CHOOSE j \in 1..Len(ks) : ks[j] = x[2]])]
-      outs == MultiAt(1, Cur, w, data, ttl)
+      outs == MultiAt(1, CurF(f), w, data, ttl)
   IN \E st \in outs :
        /\ DetOnly => Cardinality(outs) = 1
        /\ lru' = st.lru /\ bk' = st.bk
-       /\ Stored(w, ks, vals, ttl)
-       /\ Record(Op("setmulti", w, ks, vals, ttl, NoRep, Cardinality(outs) > 1, st.bk))
+       /\ IF f THEN Lost(w, ks, vals, ttl) ELSE Stored(w, ks, vals, Pos(ttl))
+       /\ Record(Op("setmulti", w, ks, vals, ttl, f, NoRep, Cardinality(outs) > 1, st.bk))
 
-Add(w, k, v, ttl) ==
-  LET r == AddAt(1, Cur, w, CK(k), CV(v), ttl) IN
+Add(w, k, v, ttl, f) ==
+  LET r == AddAt(1, CurF(f), w, CK(k), CV(v), ttl) IN
   /\ lru' = r.st.lru /\ bk' = r.st.bk
-  /\ IF r.stored THEN Stored(w, <<k>>, <<v>>, ttl) ELSE UNCHANGED ghosts
-  /\ Record(Op("add", w, <<k>>, <<v>>, ttl, [NoRep EXCEPT !.stored = r.stored, !.live = Live(w, k)], FALSE, r.st.bk))
+  /\ IF r.stored THEN Stored(w, <<k>>, <<v>>, Pos(ttl)) ELSE UNCHANGED ghosts
+  /\ Record(Op("add", w, <<k>>, <<v>>, ttl, f,
+               [NoRep EXCEPT !.stored = r.stored, !.live = Live(w, k), !.err = f], FALSE, r.st.bk))
 
-Get(w, ks) ==
-  LET outs == GetAt(1, Cur, w, [j \in 1..Len(ks) |-> CK(ks[j])]) IN
+Get(w, ks, f) ==
+  LET outs == GetAt(1, CurF(f), w, [j \in 1..Len(ks) |-> CK(ks[j])]) IN
   \E o \in outs :
     /\ DetOnly => Cardinality({x.st : x \in outs}) = 1
     /\ lru' = o.st.lru /\ bk' = o.st.bk
     /\ retLeft' = [x \in DOMAIN retLeft |-> IF x[1] = w /\ x[2] \in o.bf THEN Max(retLeft[x], conf.dttl) ELSE retLeft[x]]
-    /\ UNCHANGED <<last, ownLeft, foreign>>
-    /\ Record(Op("get", w, ks, <<>>, 0,
+    /\ UNCHANGED <<last, ownLeft, foreign, limbo>>
+    /\ Record(Op("get", w, ks, <<>>, 0, f,
                  [NoRep EXCEPT !.found = [k \in {x[2] : x \in DOMAIN o.found} |-> o.found[CK(k)].v], !.err = o.err],
                  Cardinality({x.st : x \in outs}) > 1, o.st.bk))
 
-Delete(w, k) ==
-  LET st == DelAt(1, Cur, w, CK(k)) IN
+Delete(w, k, f) ==     \* with a failing backend: local copies are gone, the backend keeps its entry, the error is returned
+  LET st == DelAt(1, CurF(f), w, CK(k)) IN
   /\ lru' = st.lru /\ bk' = st.bk
-  /\ last'    = [last EXCEPT ![<<w, k>>] = None]
-  /\ ownLeft' = [ownLeft EXCEPT ![<<w, k>>] = 0]
-  /\ retLeft' = [retLeft EXCEPT ![<<w, k>>] = 0]
-  /\ foreign' = [foreign EXCEPT ![<<w, k>>] = -1]
-  /\ Record(Op("delete", w, <<k>>, <<>>, 0, NoRep, FALSE, st.bk))
+  /\ IF f THEN UNCHANGED ghosts
+     ELSE /\ last'    = [last EXCEPT ![<<w, k>>] = None]
+          /\ ownLeft' = [ownLeft EXCEPT ![<<w, k>>] = 0]
+          /\ retLeft' = [retLeft EXCEPT ![<<w, k>>] = 0]
+          /\ foreign' = [foreign EXCEPT ![<<w, k>>] = -1]
+          /\ limbo'   = [limbo EXCEPT ![<<w, k>>] = [v \in Values |-> -1]]
+  /\ Record(Op("delete", w, <<k>>, <<>>, 0, f, [NoRep EXCEPT !.err = f], FALSE, st.bk))
 
 Advance(d) ==        \* mock.Advance(d) and the wall clock of the LRU layers move together
   LET b2 == [x \in {y \in DOMAIN bk : bk[y].left > d} |-> [bk[x] EXCEPT !.left = @ - d]] IN
@@ -296,15 +323,16 @@ Advance(d) ==        \* mock.Advance(d) and the wall clock of the LRU layers mov
   /\ ownLeft' = [x \in DOMAIN ownLeft |-> Dec(ownLeft[x], d)]
   /\ retLeft' = [x \in DOMAIN retLeft |-> Dec(retLeft[x], d)]
   /\ foreign' = [x \in DOMAIN foreign |-> IF foreign[x] < 0 THEN -1 ELSE Dec(foreign[x], d)]
-  /\ Record(Op("advance", 0, <<>>, <<>>, d, NoRep, FALSE, b2))
+  /\ limbo' = [x \in DOMAIN limbo |-> [v \in Values |-> IF limbo[x][v] < 0 THEN -1 ELSE Dec(limbo[x][v], d)]]
+  /\ Record(Op("advance", 0, <<>>, <<>>, d, FALSE, NoRep, FALSE, b2))
 
 Poke(w, k, ttl) ==   \* a foreign client stores bytes that are not a snappy block directly in the backend
   LET b2 == (BackendKey(w, k) :> [val |-> CV(Corrupt), left |-> ttl]) @@ bk IN
   /\ HasKind("snappy")
   /\ bk' = b2
   /\ foreign' = [foreign EXCEPT ![<<w, k>>] = ttl]
-  /\ UNCHANGED <<lru, last, ownLeft, retLeft>>
-  /\ Record(Op("poke", w, <<k>>, <<>>, ttl, NoRep, FALSE, b2))
+  /\ UNCHANGED <<lru, last, ownLeft, retLeft, limbo>>
+  /\ Record(Op("poke", w, <<k>>, <<>>, ttl, FALSE, NoRep, FALSE, b2))
 
 KeySeqs == UNION {{<<k>> : k \in Keys}, {<<a, b>> : a, b \in Keys} \ {<<k, k>> : k \in Keys}}
 (* one sequence per set of >= 2 keys: the argument of SetMultiAsync is a map *)
@@ -314,15 +342,16 @@ KeySets == {CHOOSE s \in KeySeqs : Range(s) = S : S \in {Range(t) : t \in {u \in
    SetMultiAsync have, by definition above, the effect of Set, so the configurations that decide the
    properties leave them out (Full = FALSE); the generation configurations include them (Full = TRUE)
    because the code paths differ. *)
-SetOp      == \E w \in Views, k \in Keys, v \in Values, ttl \in TTLs : Set("set", w, k, v, ttl)
-SetMultiOp == \E w \in Views, ks \in KeySets, ttl \in TTLs : \E vals \in [1..Len(ks) -> Values] : SetMulti(w, ks, vals, ttl)
-AddOp      == \E w \in Views, k \in Keys, v \in Values, ttl \in TTLs : Add(w, k, v, ttl)
-GetOp      == \E w \in Views, ks \in KeySeqs : Get(w, ks)
-DeleteOp   == \E w \in Views, k \in Keys : Delete(w, k)
+Fs == IF Faults THEN BOOLEAN ELSE {FALSE}
+SetOp      == \E w \in Views, k \in Keys, v \in Values, ttl \in TTLs, f \in Fs : Set("set", w, k, v, ttl, f)
+SetMultiOp == \E w \in Views, ks \in KeySets, ttl \in TTLs, f \in Fs : \E vals \in [1..Len(ks) -> Values] : SetMulti(w, ks, vals, ttl, f)
+AddOp      == \E w \in Views, k \in Keys, v \in Values, ttl \in TTLs, f \in Fs : Add(w, k, v, ttl, f)
+GetOp      == \E w \in Views, ks \in KeySeqs, f \in Fs : Get(w, ks, f)
+DeleteOp   == \E w \in Views, k \in Keys, f \in Fs : Delete(w, k, f)
 AdvanceOp  == \E d \in Deltas : Advance(d)
 PokeOp     == \E w \in Views, k \in Keys, ttl \in PokeTTLs : Poke(w, k, ttl)
-SetAsyncOp == Full /\ \E w \in Views, k \in Keys, v \in Values, ttl \in TTLs : Set("setasync", w, k, v, ttl)
-SetMulti1Op == Full /\ \E w \in Views, k \in Keys, v \in Values, ttl \in TTLs : SetMulti(w, <<k>>, <<v>>, ttl)
+SetAsyncOp == Full /\ \E w \in Views, k \in Keys, v \in Values, ttl \in TTLs, f \in Fs : Set("setasync", w, k, v, ttl, f)
+SetMulti1Op == Full /\ \E w \in Views, k \in Keys, v \in Values, ttl \in TTLs, f \in Fs : SetMulti(w, <<k>>, <<v>>, ttl, f)
 
 Next == \/ SetOp \/ SetMultiOp \/ AddOp \/ GetOp \/ DeleteOp \/ AdvanceOp \/ PokeOp
         \/ SetAsyncOp \/ SetMulti1Op
@@ -339,7 +368,8 @@ Init ==
   /\ ownLeft = [x \in (1..NViews) \X Keys |-> 0]
   /\ retLeft = [x \in (1..NViews) \X Keys |-> 0]
   /\ foreign = [x \in (1..NViews) \X Keys |-> -1]
-  /\ op = Op("init", 0, <<>>, <<>>, 0, NoRep, FALSE, <<>>)
+  /\ limbo   = [x \in (1..NViews) \X Keys |-> [v \in Values |-> -1]]
+  /\ op = Op("init", 0, <<>>, <<>>, 0, FALSE, NoRep, FALSE, <<>>)
   /\ hist = <<>>
   /\ pk = [x \in (1..NViews) \X Keys |-> None]
 
@@ -369,10 +399,12 @@ KeysWellPlaced ==
 
 (* State form of the read clauses: what any single-key read would return now *)
 PkIsPeek == pk = PeekMap(Cur)
+MayBe(x, v) == v = last[x] \/ limbo[x][v] >= 0     \* v is the stored value, or a write of v is in limbo
+InTime(x, v) == ownLeft[x] > 0 \/ retLeft[x] > 0 \/ limbo[x][v] > 0
 PeekNeverWrong ==
-  \A x \in DOMAIN pk : pk[x] # None => pk[x] = last[x]
+  \A x \in DOMAIN pk : pk[x] # None => MayBe(x, pk[x])
 PeekNeverAfterDeadline ==
-  \A x \in DOMAIN pk : pk[x] # None => ownLeft[x] > 0 \/ retLeft[x] > 0
+  \A x \in DOMAIN pk : pk[x] # None => InTime(x, pk[x])
 (* staleness is bounded: a copy outlives its own TTL by less than the default retention *)
 PeekBoundedStaleness ==
   \A x \in DOMAIN retLeft : retLeft[x] > 0 /\ ownLeft[x] = 0 => retLeft[x] < conf.dttl * Cardinality({i \in 1..NL : Kinds[i] = "lru"})
@@ -380,43 +412,71 @@ PeekBoundedStaleness ==
 ----------------------------------------------------------------------------
 (* The property's clauses as action properties over (ghosts before the step, reply of the step). *)
 IsGet == op'.name = "get"
+WriteOps == {"set", "setasync", "setmulti", "add", "delete", "poke"}
 Returned == DOMAIN op'.rep.found
 
-NeverWrong ==          \* a returned value is the latest one stored under that (view, key)
-  [][IsGet => \A k \in Returned : op'.rep.found[k] = last[<<op'.w, k>>]]_vars
-NeverAfterDelete ==    \* nothing is returned for a key that was deleted (or never stored)
-  [][IsGet => \A k \in Returned : last[<<op'.w, k>>] # None]_vars
+(* Without backend failures limbo is empty and the clauses read: a returned value is the latest one stored;
+   nothing is returned after a Delete; nothing is returned after the later of own TTL and default retention.
+   A write whose backend call failed (Set returned the error; SetAsync / SetMultiAsync lose it) is in limbo:
+   the LRU layers above hold the new value, the backend the old one - either may be read until the next
+   successful store or delete of that key. *)
+NeverWrong ==          \* a returned value is the latest one stored under that (view, key) [or one in limbo]
+  [][IsGet => \A k \in Returned : MayBe(<<op'.w, k>>, op'.rep.found[k])]_vars
+NeverAfterDelete ==    \* nothing is returned for a key that was deleted (or never stored) [unless written since]
+  [][IsGet => \A k \in Returned : last[<<op'.w, k>>] # None \/ limbo[<<op'.w, k>>][op'.rep.found[k]] >= 0]_vars
 NeverAfterDeadline ==  \* nothing is returned after the later of the own TTL and the default retention
-  [][IsGet => \A k \in Returned : ownLeft[<<op'.w, k>>] > 0 \/ retLeft[<<op'.w, k>>] > 0]_vars
-NeverCorrupt ==        \* undecodable bytes never reach the client; errors only come from them
+  [][IsGet => \A k \in Returned : InTime(<<op'.w, k>>, op'.rep.found[k])]_vars
+NeverCorrupt ==        \* undecodable bytes never reach the client; errors only come from them or from the backend
   [][IsGet => /\ \A k \in Returned : op'.rep.found[k] \in Values
               /\ Returned \subseteq Range(op'.keys)
-              /\ op'.rep.err => \E x \in DOMAIN foreign : foreign[x] >= 0]_vars
+              /\ op'.rep.err => op'.fail \/ \E x \in DOMAIN foreign : foreign[x] >= 0]_vars
 ReadIsPeek ==          \* a multi-key read returns, per key, what the single-key read would have
-  [][IsGet => \A k \in Range(op'.keys) :
+  [][IsGet /\ ~op'.fail => \A k \in Range(op'.keys) :
         pk[<<op'.w, k>>] = IF k \in Returned THEN op'.rep.found[k] ELSE None]_vars
 
-WriteOps == {"set", "setasync", "setmulti", "add", "delete", "poke"}
+(* Backend failures (Faults = TRUE) *)
+FailedReadIsLocal ==   \* GetMultiWithError returns exactly the local hits, and the error iff the backend was needed
+  [][IsGet /\ op'.fail =>
+       /\ \A k \in Range(op'.keys) :
+             Peek(LocalOnly(Cur), op'.w, k) = IF k \in Returned THEN op'.rep.found[k] ELSE None
+       /\ bk' = bk
+       /\ (\A k \in Range(op'.keys) : k \in Returned) => ~op'.rep.err
+       /\ ~HasKind("snappy") => (op'.rep.err <=> \E k \in Range(op'.keys) : k \notin Returned)]_vars
+FailedWriteKeepsBackend ==   \* a failed Set / Add / Delete / async write returns the error and leaves the backend alone
+  [][op'.name \in WriteOps /\ op'.fail =>
+       /\ bk' = bk
+       /\ op'.name \in {"set", "add", "delete"} => op'.rep.err
+       /\ op'.name = "add" => ~op'.rep.stored /\ UNCHANGED <<mech, ghosts>>
+       /\ op'.name = "delete" => Peek(LocalOnly([lru |-> lru', bk |-> bk', fail |-> FALSE]), op'.w, op'.keys[1]) = None]_vars
+NoErrorWithoutFault ==
+  [][op'.name \in {"set", "add", "delete"} /\ ~op'.fail => ~op'.rep.err]_vars
+(* NOT a property of the code (see MC_faults_finding.cfg): a Set that returned an error is invisible to readers.
+   LRUCache.Set inserts the value locally whatever the layer below answered. *)
+FailedSetInvisible ==
+  [][op'.name = "set" /\ op'.fail => pk'[<<op'.w, op'.keys[1]>>] = pk[<<op'.w, op'.keys[1]>>]]_vars
+
 NoAlias ==             \* a write under (w,k) can at most make another (w2,k2) disappear (eviction)
   [][op'.name \in WriteOps =>
        \A w2 \in Views, k2 \in Keys :
           (w2 # op'.w \/ k2 \notin Range(op'.keys)) =>
-             pk'[<<w2, k2>>] \in {pk[<<w2, k2>>], None}]_vars
+             \/ pk'[<<w2, k2>>] \in {pk[<<w2, k2>>], None}
+             \/ /\ \E v \in Values : limbo[<<w2, k2>>][v] >= 0     \* a write in limbo: an eviction may swap
+                /\ MayBe(<<w2, k2>>, pk'[<<w2, k2>>])]_vars           \* the local value for the backend's
 
 AddSemantics ==
   [][op'.name = "add" =>
        LET w == op'.w  k == op'.keys[1] IN
-       /\ op'.rep.stored = ~Live(w, k)        \* refused exactly while the entry is live for the client
+       /\ ~op'.fail => op'.rep.stored = ~Live(w, k)        \* refused exactly while the entry is live for the client
        /\ op'.rep.live = Live(w, k)
        /\ ~op'.rep.stored => UNCHANGED <<mech, ghosts>>
-       /\ op'.rep.stored => pk'[<<w, k>>] = op'.vals[1]]_vars
+       /\ op'.rep.stored /\ op'.ttl > 0 => pk'[<<w, k>>] = op'.vals[1]]_vars
 
 ReadYourWrites ==      \* (not part of C19; guards against a vacuous specification)
-  [][op'.name \in {"set", "setasync", "setmulti"} =>
+  [][op'.name \in {"set", "setasync", "setmulti"} /\ ~op'.fail /\ op'.ttl > 0 =>
        \A j \in 1..Len(op'.keys) : pk'[<<op'.w, op'.keys[j]>>] = op'.vals[j]]_vars
 
 DeleteRemoves ==
-  [][op'.name = "delete" => pk'[<<op'.w, op'.keys[1]>>] = None]_vars
+  [][op'.name = "delete" /\ ~op'.fail => pk'[<<op'.w, op'.keys[1]>>] = None]_vars
 
 ----------------------------------------------------------------------------
 (* SYMMETRY of the deciding configurations (Keys and Values are sets of model values there): nothing in
@@ -444,5 +504,5 @@ Behaviour(h, st) == [stack |-> Kinds, cap |-> conf.cap, dttl |-> conf.dttl, step
 Bounded   == Len(hist) <= MaxOps                                           \* CONSTRAINT
 (* ACTION_CONSTRAINT of the exhaustive generation config: one behaviour per transition of the graph
    (shortest path to the source state + the transition), each followed by the sweep of the target *)
-EmitStep  == PrintT(ToJson(Behaviour(hist', [lru |-> lru', bk |-> bk'])))
+EmitStep  == PrintT(ToJson(Behaviour(hist', [lru |-> lru', bk |-> bk', fail |-> FALSE])))
 =============================================================================
